@@ -120,13 +120,49 @@ type Sim struct {
 func (s *Sim) SetJitter(seed int64) { atomic.StoreInt64(&s.jitter, seed) }
 
 // New starts nhosts TLS listeners and one plaintext canary.
-func New(nhosts int) *Sim {
+func New(nhosts int) *Sim { return newSim(nhosts, false) }
+
+// NewLookalike is New(3) with authorities that are easily taken for one another: the three listeners share the address
+// and their ports are K3, K4 and K for one number K (…:40123, …:40124, …:4012): equal up to a trailing digit, one a
+// prefix of the others. They are three different hosts.
+func NewLookalike() *Sim { return newSim(3, true) }
+
+func newSim(nhosts int, lookalike bool) *Sim {
 	Init()
 	s := &Sim{routes: map[string]*Route{}, stop: make(chan struct{})}
+	var listeners []net.Listener
+	if lookalike {
+		for k := 1100 + os.Getpid()%4000; k < 6500 && listeners == nil; k += 7 {
+			var got []net.Listener
+			for _, port := range []int{k*10 + 3, k*10 + 4, k} {
+				ln, err := net.Listen("tcp", fmt.Sprintf("127.0.0.1:%d", port))
+				if err != nil {
+					break
+				}
+				got = append(got, ln)
+			}
+			if len(got) == 3 {
+				listeners = got
+			} else {
+				for _, ln := range got {
+					ln.Close()
+				}
+			}
+		}
+		if listeners == nil {
+			panic("vsim: no free look-alike port triple")
+		}
+	}
 	for i := 0; i < nhosts; i++ {
-		ln, err := net.Listen("tcp", "127.0.0.1:0")
-		if err != nil {
-			panic(err)
+		var ln net.Listener
+		if listeners != nil {
+			ln = listeners[i]
+		} else {
+			var err error
+			ln, err = net.Listen("tcp", "127.0.0.1:0")
+			if err != nil {
+				panic(err)
+			}
 		}
 		h := &host{idx: i, ln: ln}
 		s.hosts = append(s.hosts, h)
